@@ -147,6 +147,17 @@ class Ser:
     def sum(self):
         return sum(a for a in self.values if not _is_nan(a))
 
+    def max(self):
+        vals = [a for a in self.values if not _is_nan(a) and a is not None]
+        return max(vals) if vals else NAN
+
+    def min(self):
+        vals = [a for a in self.values if not _is_nan(a) and a is not None]
+        return min(vals) if vals else NAN
+
+    def get(self, key, default=None):
+        return self.values[self.index.index(key)] if key in self.index else default
+
     def copy(self):
         return Ser(self.values, self.index)
 
